@@ -824,11 +824,28 @@ func cmdDkg(prop string, args []string) int {
 		}
 		files = append(files, file)
 	}
+	if prop == "C13" {
+		nf, arLines, nn, err := realTransportSwaps(ctx, cf.g63, stats)
+		if err != nil {
+			fmt.Fprintln(os.Stderr, "real transport:", err)
+			return 2
+		}
+		monFail = append(monFail, nf...)
+		var b strings.Builder
+		b.WriteString("From DV Require Import Corr.CheckDkg.\nLocal Open Scope string_scope.\nLocal Open Scope Z_scope.\n")
+		fmt.Fprintf(&b, "Definition cases : list arcase := [\n%s].\n", strings.Join(arLines, ";\n"))
+		b.WriteString("Definition M := Eval vm_compute in armismatches cases.\nPrint M.\n")
+		if err := os.WriteFile(filepath.Join(cf.out, "cases_C13_net.v"), []byte(b.String()), 0o644); err != nil {
+			return 2
+		}
+		files = append(files, "cases_C13_net.v")
+		stats["real-transport.swaps"] = nn
+	}
 	rule := "clusters of real instances (identifier sets small, sparse, near 2^64), real OnGenerate at the initiator, messages delivered to the peers' real receiver handlers; "
 	if prop == "C12" {
 		rule += "every participant count 2..cluster size x every threshold 0..n+1 x initiators x prescribed arrival orders of the parallel commit replies; after a success every participant's stored account is read back (composite key, vector, threshold, participants, share), every participant signs and lists at once, every t-subset and (t-1)-subset of the partial signatures is combined with the real BLS library; the dealt polynomials are recovered from the dealt shares and the Coq model is run on them: result, share, threshold and participants per instance must agree"
 	} else {
-		rule += "for every permitted (n, t): every position of the prepare / execute / contribution (request and reply) sequence x fault kind (lost, error reply, share replaced, share for another identifier, commitment altered, vector too short, vector too long consistent with its share, vector too long, duplicate delivery); afterwards the error, every instance's wallet and any panic are observed and compared with the model run on the same dealt polynomials and the same altered messages"
+		rule += "for every permitted (n, t): every position of the prepare / execute / contribution (request and reply) sequence x fault kind (lost, error reply, share replaced, share for another identifier, commitment altered, vector too short, vector too long consistent with its share, vector too long, duplicate delivery); afterwards the error, every instance's wallet and any panic are observed and compared with the model run on the same dealt polynomials and the same altered messages; plus the requester's side of a swap over the REAL transport: a real instance with the real gRPC sender (TLS, protobuf) executes against a scripted peer server whose contribution replies are valid, of the wrong length, undecodable, oversized, or errors"
 	}
 	sum := &Summary{Property: prop, Seed: cf.seed, Tier: cf.tier, Evaluations: len(lines), Distinct: len(lines), Rule: rule,
 		Histories: len(lines), Distribution: stats, Samples: samples, MonitorFailures: monFail, CaseFiles: files, CaseIndex: idx}
